@@ -1,7 +1,7 @@
 """Object-graph descriptions shared by C03/C04/C08: generator and Coq rendering (Model/Graph.v syntax)."""
 from common import cN, cZ, cnat, cbool, clist, copt, cpair
 
-ATTRS = sorted(['B', '_x', 'a', 'a_', 'aa', 'b', 'c', 'self', 'up', 'w', 'x', 'kernel', 'bias'])
+ATTRS = sorted(['B', '_x', 'a', 'a_', 'aa', 'b', 'c', 'self', 'up', 'w', 'x', 'kernel', 'bias', 'u2', 'u10', 'u1'])
 DKEYS = sorted(['k1', 'k2', 'z'])
 EXTRA_KEYS = ['sub']
 ALLK = sorted(set(ATTRS + DKEYS + EXTRA_KEYS))
@@ -163,6 +163,12 @@ def gen_graph(rng, nmax, share_containers=False):
       objs[parent]['attrs'].append([rng.choice(free), ['ref', i]])
   for j in nodes:
     used = {k for k, _ in objs[j]['attrs']}
+    if rng.random() < 0.15:
+      # numbered attributes whose numeric order differs from their string order (u10 < u2 as strings)
+      for k in ('u2', 'u10', 'u1'):
+        if k not in used and rng.random() < 0.8:
+          objs[j]['attrs'].append([k, gen_val(1)])
+          used.add(k)
     for k in rng.sample([k for k in ATTRS if k not in used], min(rng.randint(0, 3), len(ATTRS) - len(used))):
       objs[j]['attrs'].append([k, gen_val(2)])
     objs[j]['attrs'].sort(key=lambda kv: kv[0])
